@@ -243,6 +243,9 @@ pub fn gen_exchange(t: &mut Tape, allow_close: bool) -> ExchangeSpec {
             extra_headers.push(("Authorization".to_string(), "Bearer second".to_string()));
         }
     }
+    // how the framing header and the ordinary headers reach the flow (original request, or Flow::header() before / after
+    // send_body_despite_method())
+    let prep = if t.chance(20) { 1 + t.below(2) as u8 } else { 0 };
     ExchangeSpec {
         method,
         req_v10,
@@ -256,6 +259,7 @@ pub fn gen_exchange(t: &mut Tape, allow_close: bool) -> ExchangeSpec {
         await_mode,
         server_pre,
         resp,
+        prep: prep,
     }
 }
 
